@@ -90,6 +90,9 @@ def make_files(sc, case):
 	files = []
 	for i, f in enumerate(case['files']):
 		p = sc.path(f'g{i}.fasta')
+		if f['kind'] == 'same':
+			files.append(files[f['as']])          # the very same SequenceFile given again
+			continue
 		if f['kind'] == 'ok':
 			dbutil.write_fasta(p, [bytes.fromhex(c) for c in f['contigs']])
 		elif f['kind'] == 'missing':
@@ -134,7 +137,7 @@ def check_reuse(ctx, case):
 						results.append('E')
 				try:
 					out = calc_file_signatures(kspec, files, executor=pool)
-					real = natlists([np.asarray(s).tolist() for s in out]) if len(out) else '_'
+					real = 'has-None' if any(s is None for s in out) else (natlists([np.asarray(s).tolist() for s in out]) if len(out) else '_')
 				except Exception:
 					real = 'err'
 				lines.append(f'c13.run {";".join(results) if results else "_"} {nats(range(len(files)))} {real}')
@@ -186,9 +189,10 @@ def check(ctx, case):
 				raise ValueError(mode)
 			if not isinstance(out, SignatureList) or out.kmerspec != kspec:
 				pf.append('result is not a SignatureList with the requested k-mer parameters')
-			real = natlists([np.asarray(s).tolist() for s in out]) if len(out) else '_'
 			if any(s is None for s in out):
-				real = 'has-None'
+				real = 'has-None'        # a list with a missing signature was returned
+			else:
+				real = natlists([np.asarray(s).tolist() for s in out]) if len(out) else '_'
 		except Exception as e:
 			real = 'err'
 		finally:
@@ -202,7 +206,42 @@ def check(ctx, case):
 		if mode in ('threads', 'processes', 'own-pool'):
 			sigma = nats(range(n))   # schedule unknown: the model is run with the identity order, the spec does not depend on it
 		case['_nt'] = n >= 2 and (mode != 'controlled' or case['order'] != list(range(n)))
-		return [f'c13.run {";".join(results) if results else "_"} {sigma} {real}'], pf
+		lines = [f'c13.run {";".join(results) if results else "_"} {sigma} {real}']
+		if case.get('again') and real not in ('err', 'has-None') and mode != 'controlled':
+			# a second call in the same process: the caller scribbled over the arrays it got back, and one file was replaced by
+			# different content of the same size with its modification time preserved
+			import os as _os
+			try:
+				for s_ in out:
+					if len(s_):
+						s_[...] = 0
+			except Exception:
+				pass
+			for i, f in enumerate(case['files']):
+				if f['kind'] == 'ok' and case['again'] == 'replace' and i == case.get('replace_idx', 0):
+					pth = files[i].path
+					st = _os.stat(pth)
+					data = pth.read_bytes()
+					tr = bytes.maketrans(b'ACGT', b'CATG')
+					head, _, body = data.partition(b'\n')
+					pth.write_bytes(head + b'\n' + body.translate(tr))
+					_os.utime(pth, ns=(st.st_atime_ns, st.st_mtime_ns))
+			results2 = []
+			for f in files:
+				try:
+					results2.append(nats(calc_file_signature(kspec, f).tolist()))
+				except Exception:
+					results2.append('E')
+			try:
+				if mode == 'sequential':
+					out2 = calc_file_signatures(kspec, files, concurrency=None)
+				else:
+					out2 = calc_file_signatures(kspec, files, concurrency='threads' if mode == 'own-pool' else mode, max_workers=case.get('workers'))
+				real2 = 'has-None' if any(s is None for s in out2) else (natlists([np.asarray(s).tolist() for s in out2]) if len(out2) else '_')
+			except Exception:
+				real2 = 'err'
+			lines.append(f'c13.run {";".join(results2) if results2 else "_"} {sigma} {real2}')
+		return lines, pf
 	finally:
 		sc.cleanup()
 
@@ -275,12 +314,29 @@ def run(ctx):
 			calls.append(call)
 		sub({'files': [f for call in calls for f in call], 'calls': calls, 'mode': 'reuse-pool', 'workers': rng.choice([1, 1, 2])}, 'reuse-pool')
 	# sequential and real pools
-	for j in range(ctx.q(25, 300)):
+	for j in range(ctx.q(70, 400)):
 		if not ctx.time_left(0.95):
 			break
 		n = rng.randint(0, 7)
 		files = [rand_file(rng, big=(rng.random() < 0.25 and i < n // 2)) for i in range(n)]
-		if rng.random() < 0.3 and n:
-			files[rng.randrange(n)] = {'kind': rng.choice(['missing', 'garbage'])}
-		mode = rng.choice(['sequential', 'threads', 'threads', 'own-pool', 'processes'])
-		sub({'files': files, 'mode': mode, 'workers': rng.choice([1, 2, 3, 8, 16])}, 'pools')
+		if rng.random() < 0.4 and n:
+			# a file that cannot be opened, is not gzip although it claims to be, or breaks part-way through parsing — at any position
+			files[rng.randrange(n)] = {'kind': rng.choice(['missing', 'garbage', 'truncgz', 'truncgz']),
+			                           'contigs': [dbutil.rand_dna(rng, rng.randint(30, 200)).hex() for _ in range(rng.randint(1, 3))]}
+		if rng.random() < 0.35 and n >= 2:
+			# the same file given more than once, with other files in between
+			for _ in range(rng.randint(1, 2)):
+				src = rng.randrange(len(files))
+				if files[src]['kind'] == 'same':
+					continue
+				pos = rng.randint(src + 1, len(files))
+				files.insert(pos, {'kind': 'same', 'as': src})
+				for f in files[pos + 1:]:
+					if f['kind'] == 'same' and f['as'] >= pos:
+						f['as'] += 1
+		mode = rng.choice(['sequential', 'sequential', 'threads', 'threads', 'own-pool', 'processes'])
+		case = {'files': files, 'mode': mode, 'workers': rng.choice([1, 2, 3, 8, 16])}
+		if rng.random() < 0.4 and all(f['kind'] in ('ok', 'same') for f in files):
+			oks = [i for i, f in enumerate(files) if f['kind'] == 'ok']
+			case.update(again=rng.choice(['scribble', 'replace']), replace_idx=rng.choice(oks) if oks else 0)
+		sub(case, 'pools')
